@@ -100,7 +100,7 @@ Section ElispTokens.
     assert (Hcond : (let nx := match s' ++ rest with [] => 0 | b :: _ => b end in
                      (nx =? 0) || is_delimiter nx || is_sign_subsequent nx || (nx =? 46) || (127 <? nx)) = true).
     { destruct s' as [|c2 s'']; cbn [app].
-      - destruct rest as [|d rest']; [reflexivity|]. destruct Hd as [->|[->| ->]]; reflexivity.
+      - destruct rest as [|d rest']; [reflexivity|]. delim_cases Hd; reflexivity.
       - exact Hnext. }
     cbv zeta in Hcond. rewrite Hcond. unfold parse_symbol_suffix.
     destruct (parse_symbol_spec s' fuel [c] rest r1 Hf' Hn' Ht Ha1 Hok) as (r2 & E2 & Ha2 & Hk2 & _).
